@@ -132,7 +132,7 @@ def run(ctx):
                             else:
                                 argv.append('--%s=%s' % (k2, v2))
                         argv.append(sym['content'])
-                        pr = subprocess.run([sys.executable, '-m', 'segno.cli'] + argv, capture_output=True, env=dict(os.environ, PYTHONPATH='/repo'), timeout=60)
+                        pr = subprocess.run([sys.executable, '-m', 'segno.cli'] + argv, capture_output=True, env=dict(os.environ, PYTHONPATH=common.REPO), timeout=60)
                         routes['cli ' + ' '.join(flags)] = mask(open(p, 'rb').read()) if pr.returncode == 0 and os.path.exists(p) else \
                             ('cli exit %d: %s' % (pr.returncode, pr.stderr[-120:].decode(errors='replace'))).encode()
                     for name, got in routes.items():
@@ -154,7 +154,7 @@ def run(ctx):
                     argv.append('--micro' if v2 else '--no-micro')
                 elif k2 != 'content':
                     argv.append('--%s=%s' % (k2, v2))
-            pr = subprocess.run([sys.executable, '-m', 'segno.cli'] + argv + [sym['content']], capture_output=True, env=dict(os.environ, PYTHONPATH='/repo'), timeout=60)
+            pr = subprocess.run([sys.executable, '-m', 'segno.cli'] + argv + [sym['content']], capture_output=True, env=dict(os.environ, PYTHONPATH=common.REPO), timeout=60)
             if pr.stdout.decode('utf-8') != buf.getvalue():
                 failures.append({'input': {'symbol': sym, 'route': 'cli without output'}, 'observed': repr(pr.stdout[:60]), 'expected': repr(buf.getvalue()[:60])})
         # ---- routing model (extracted Gallina Route.build_config / Route.resolve) against cli.build_config / writers.save
@@ -227,6 +227,61 @@ def run(ctx):
                 want = mask(api_stream(seq[k], ext, skw))
                 if got != want:
                     failures.append({'input': {'route': 'sequence file ' + f}, 'observed': repr(got[:60]), 'expected': repr(want[:60])})
+        # sequence file names: the counter goes in front of the extension (the LAST dot of the name), also for base
+        # names and directories containing further dots; a one-symbol sequence keeps the name
+        single = segno.make_sequence('AB', version=1)
+        for sub, name in (('', 'qr.v2.svg'), ('', 'a.b.c.png'), ('', 'x.tar.txt'), ('dir.with.dots', 'plain.svg'),
+                          ('dir.d', 'p.q.svg'), ('', '.hidden.svg')):
+            n += 1
+            dd = os.path.join(d, 'sq%d' % n, sub) if sub else os.path.join(d, 'sq%d' % n)
+            os.makedirs(dd, exist_ok=True)
+            stem, ext = os.path.splitext(name)
+            if not ext:          # '.hidden' style names: splitext keeps them whole; segno sees the dot as extension start
+                stem, ext = '', name
+            m = len(seq)
+            r = impl.call(lambda: seq.save(os.path.join(dd, name)))
+            names = sorted(os.listdir(dd))
+            want_names = sorted('%s-%02d-%02d%s' % (stem, m, k, ext) for k in range(1, m + 1))
+            if r[0] != 'ok' or names != want_names:
+                failures.append({'input': {'route': 'sequence file names', 'name': os.path.join(sub, name), 'symbols': m},
+                                 'observed': names if r[0] == 'ok' else r[1], 'expected': want_names})
+            for f in names:
+                os.unlink(os.path.join(dd, f))
+            r = impl.call(lambda: single.save(os.path.join(dd, name)))
+            names = sorted(os.listdir(dd))
+            if r[0] != 'ok' or names != [name]:
+                failures.append({'input': {'route': 'sequence file names', 'name': os.path.join(sub, name), 'symbols': 1},
+                                 'observed': names if r[0] == 'ok' else r[1], 'expected': [name]})
+        # model correspondence for the naming function: the files written for arbitrary names = Route.sequence_filename
+        rq, ex = [], []
+        for name in ('qr.v2.svg', 'a.b.c.png', 'nodot', '.svg', 'x..txt', 'd.e/f.svg', 'd.e/f', 'tr.', 'UP.PNG'):
+            for m_ in (1, 2, 12):
+                created = []
+
+                class Rec:
+                    def save(self, out, kind=None, **kw):
+                        created.append(out)
+                s2 = segno.QRCodeSequence([Rec() for _ in range(m_)])
+                r = impl.call(lambda: s2.save(name))
+                for k_, got in enumerate(created, 1):
+                    rq.append('seqname %s %d %d' % (cps(name), m_, k_))
+                    ex.append(cps(got))
+        ans = common.oracle_parallel(rq, chunk=40) if rq else []
+        for r_, a_, e_ in zip(rq, ans, ex):
+            n += 1
+            if a_ != e_:
+                corr_broken.append('QRCodeSequence.save file naming: model %s vs implementation %s for %s' % (a_, e_, r_))
+                break
+        # the same through the command line (--seq)
+        n += 1
+        dd = os.path.join(d, 'sqcli')
+        os.makedirs(dd, exist_ok=True)
+        pr = subprocess.run([sys.executable, '-m', 'segno.cli', '--seq', '--version', '1', '-o', os.path.join(dd, 'c.v2.svg'),
+                             'ABCDEFGHIJKLMNOPQRSTUVWXYZ' * 3], capture_output=True, env=dict(os.environ, PYTHONPATH=common.REPO), timeout=60)
+        names = sorted(os.listdir(dd))
+        want_names = ['c.v2-%02d-%02d.svg' % (len(seq), k) for k in range(1, len(seq) + 1)]
+        if pr.returncode != 0 or names != want_names:
+            failures.append({'input': {'route': 'cli --seq file names', 'name': 'c.v2.svg'}, 'observed': names or pr.stderr.decode()[-200:], 'expected': want_names})
     return {'failures': failures, 'correspondence_broken': corr_broken, 'correspondence_details': corr_details, 'evaluations': n, 'distinct_nontrivial': len(distinct), 'rule': RULE,
             'samples': samples, 'searched': '%d route comparisons' % n}
 
